@@ -478,7 +478,18 @@ class EscapeAnalysis:
         pos = pnames[skip:]
         tags = {}
         star = any(isinstance(x, ast.Starred) for x in call.args)
-        dstar = any(k.arg is None for k in call.keywords)
+        # `**{"k": v}`, `**dict(k=v)` or `**local` bound once to such a display pass known keyword names:
+        # possible key sets are enumerated (conditional keys `"a" if c else "b"` give alternatives)
+        dkeys = set()  # names that MAY be passed through ** displays
+        dstar = False
+        for k in call.keywords:
+            if k.arg is not None:
+                continue
+            ks = self._display_keys(caller, k.value)
+            if ks is None:
+                dstar = True
+            else:
+                dkeys |= ks
         if not star:
             for p, arg in zip(pos, call.args):
                 tags[p] = self._tag(caller, arg)
@@ -500,8 +511,62 @@ class EscapeAnalysis:
                         tags[p] = c if c else ("present",)
             if a.kwarg:
                 declared = set(pnames) | {x.arg for x in a.kwonlyargs}
-                tags["**" + a.kwarg.arg] = ("keys", frozenset(k.arg for k in call.keywords if k.arg not in declared))
+                explicit = frozenset(k.arg for k in call.keywords if k.arg is not None and k.arg not in declared)
+                if dkeys:
+                    # may-keys: membership can be refuted (name not among them) but not affirmed
+                    tags["**" + a.kwarg.arg] = ("maykeys", explicit | frozenset(x for x in dkeys if x not in declared))
+                else:
+                    tags["**" + a.kwarg.arg] = ("keys", explicit)
         return frozenset(tags.items())
+
+    def _display_keys(self, caller, v, depth=0):
+        """keyword names a `**v` argument can contribute, or None when unknown"""
+        if depth > 3:
+            return None
+        if isinstance(v, ast.Dict):
+            out = set()
+            for k_ in v.keys:
+                if k_ is None:
+                    return None
+                alts = self._str_alternatives(k_)
+                if alts is None:
+                    return None
+                out |= alts
+            return out
+        if isinstance(v, ast.Call) and chain(v.func) == "dict" and not v.args:
+            if any(kw.arg is None for kw in v.keywords):
+                return None
+            return {kw.arg for kw in v.keywords}
+        if isinstance(v, ast.Name) and not isinstance(caller.node, ast.Lambda):
+            from .rulekit import writes_to_name
+            ws = writes_to_name(caller.node, v.id)
+            if len(ws) == 1 and isinstance(ws[0], ast.Assign) and len(ws[0].targets) == 1 and isinstance(ws[0].targets[0], ast.Name):
+                # no later item stores / updates on it
+                for n_ in walk_no_nested(caller.node):
+                    if isinstance(n_, ast.Subscript) and isinstance(n_.ctx, (ast.Store, ast.Del)) and isinstance(n_.value, ast.Name) and n_.value.id == v.id:
+                        alts = self._str_alternatives(n_.slice)
+                        if alts is None:
+                            return None
+                    if isinstance(n_, ast.Call) and isinstance(n_.func, ast.Attribute) and isinstance(n_.func.value, ast.Name) and n_.func.value.id == v.id and n_.func.attr in ("update", "setdefault", "pop", "clear", "popitem"):
+                        return None
+                base = self._display_keys(caller, ws[0].value, depth + 1)
+                if base is None:
+                    return None
+                for n_ in walk_no_nested(caller.node):
+                    if isinstance(n_, ast.Subscript) and isinstance(n_.ctx, ast.Store) and isinstance(n_.value, ast.Name) and n_.value.id == v.id:
+                        base |= self._str_alternatives(n_.slice) or set()
+                return base
+        return None
+
+    def _str_alternatives(self, e):
+        if isinstance(e, ast.Constant) and isinstance(e.value, str):
+            return {e.value}
+        if isinstance(e, ast.IfExp):
+            a_, b_ = self._str_alternatives(e.body), self._str_alternatives(e.orelse)
+            if a_ is None or b_ is None:
+                return None
+            return a_ | b_
+        return None
 
     def _tag(self, caller, arg):
         c = _const_of(arg)
@@ -566,6 +631,8 @@ class EscapeAnalysis:
                 if t and t[0] == "keys":
                     res = l.value in t[1]
                     return res if isinstance(op, ast.In) else not res
+                if t and t[0] == "maykeys" and l.value not in t[1]:
+                    return isinstance(op, ast.NotIn)
         if isinstance(test, ast.Call) and isinstance(test.func, ast.Attribute) and chain(test.func.value) == "self" and not test.args and not test.keywords:
             facts = dict(sh.get("@selffacts", ("facts", frozenset()))[1])
             if test.func.attr in facts:
@@ -625,7 +692,42 @@ class EscapeAnalysis:
         out = set()
         for st in stmts:
             out |= self._stmt(fi, st, shape, caught)
+            if self._ends_flow(st, shape):
+                break  # what follows in this block is unreachable under this call shape
         return out
+
+    def _ends_flow(self, st, shape):
+        """Does control never fall through statement st (under the call shape)?  Guard clauses
+        (`if ok: ...; return` followed by `raise`) and nested if/else are the same program."""
+        if isinstance(st, (ast.Return, ast.Raise, ast.Continue, ast.Break)):
+            return True
+        if isinstance(st, (ast.Assign, ast.Expr, ast.AnnAssign)) and getattr(st, "value", None) is not None:
+            # `kwargs.pop("k")` / `kwargs["k"]` on the ** dictionary when the call passes no such keyword:
+            # the statement raises KeyError, nothing after it in this block runs
+            sh = dict(shape or ())
+            for x in walk_no_nested(st.value):
+                kd = None
+                if isinstance(x, ast.Call) and isinstance(x.func, ast.Attribute) and x.func.attr == "pop" and len(x.args) == 1 and not x.keywords and isinstance(x.func.value, ast.Name):
+                    kd = (x.func.value.id, x.args[0])
+                elif isinstance(x, ast.Subscript) and isinstance(x.ctx, ast.Load) and isinstance(x.value, ast.Name):
+                    kd = (x.value.id, x.slice)
+                if kd and isinstance(kd[1], ast.Constant) and isinstance(kd[1].value, str):
+                    t = sh.get("**" + kd[0])
+                    if t and t[0] in ("keys", "maykeys") and kd[1].value not in t[1]:
+                        return True
+        if isinstance(st, ast.If):
+            d = self.decide(st.test, shape)
+            body_ends = bool(st.body) and self._block_ends(st.body, shape)
+            else_ends = bool(st.orelse) and self._block_ends(st.orelse, shape)
+            if d is True:
+                return body_ends
+            if d is False:
+                return else_ends
+            return body_ends and else_ends
+        return False
+
+    def _block_ends(self, stmts, shape):
+        return any(self._ends_flow(x, shape) for x in stmts)
 
     def _catches(self, fi, handler, esc):
         if handler.type is None:
@@ -665,7 +767,9 @@ class EscapeAnalysis:
             out |= remaining
             for h, got in zip(st.handlers, per_handler):
                 out |= self._block(fi, h.body, shape, caught=(h.name, got, h))
-            out |= self._block(fi, st.orelse, shape, caught)
+            if not self._block_ends(st.body, shape):
+                # the else arm runs only when the body completes normally
+                out |= self._block(fi, st.orelse, shape, caught)
             out |= self._block(fi, st.finalbody, shape, caught)
             return out
         if isinstance(st, ast.If):
@@ -890,7 +994,7 @@ class EscapeAnalysis:
         # dict-typed attribute (initialised as {} / dict())
         if isinstance(n.value, ast.Attribute) and chain(n.value.value) == "self" and not isinstance(n.slice, ast.Slice):
             sc = self.res.self_class(fi)
-            if sc is not None and self._is_dict_attr(sc, n.value.attr):
+            if sc is not None and self._is_dict_attr(sc, n.value.attr) and not self._key_present(fi, n):
                 self.implicit_sites.append((fi.short, stmt_text(n, 60)))
                 out.add(Esc("KeyError", fi.short, n.lineno, stmt_text(n, 80)))
         # constant index on a local sequence without a dominating length/truthiness guard
@@ -909,6 +1013,85 @@ class EscapeAnalysis:
                 self.implicit_sites.append((fi.short, stmt_text(n, 60)))
                 out.add(Esc("IndexError", fi.short, n.lineno, stmt_text(n, 80)))
         return out
+
+    def _key_present(self, fi, n):
+        """`self.d[k]` cannot raise KeyError where a test `k in self.d` (true) / `k not in self.d` (false)
+        dominates it and neither k nor self.d is written in between (no store to the names of k, no
+        mutating call / subscript store / del on self.d on any path from the test to the read), or where
+        `self.d[k] = v` / `self.d.setdefault(k, ..)` with the same key dominates it in the same way."""
+        if isinstance(fi.node, ast.Lambda):
+            return False
+        try:
+            from .cfg import cfg_of
+            cfg = cfg_of(fi)
+            nids = cfg.locate(n)
+            if not nids:
+                # expression inside a statement: locate the enclosing statement
+                cur = n
+                while cur is not None and not nids:
+                    cur = cfg.parent.get(id(cur))
+                    if cur is None:
+                        break
+                    nids = cfg.locate(cur)
+            if not nids:
+                return False
+        except Exception:
+            return False
+        dchain = chain(n.value)
+        key = dump(n.slice)
+        keynames = {x.id for x in ast.walk(n.slice) if isinstance(x, ast.Name)}
+        MUT = {"pop", "popitem", "clear", "update", "setdefault", "__delitem__"}
+
+        def disturbs(node):
+            a = node.ast
+            if a is None or node.kind in ("T", "F"):
+                return False
+            for x in walk_no_nested(a):
+                if isinstance(x, ast.Name) and isinstance(x.ctx, (ast.Store, ast.Del)) and x.id in keynames:
+                    return True
+                if isinstance(x, ast.Call) and isinstance(x.func, ast.Attribute) and x.func.attr in MUT - {"setdefault", "update"} and chain(x.func.value) == dchain:
+                    return True
+                if isinstance(x, ast.Delete):
+                    for t in x.targets:
+                        if isinstance(t, ast.Subscript) and chain(t.value) == dchain:
+                            return True
+                if isinstance(x, ast.Attribute) and isinstance(x.ctx, ast.Store) and chain(x) == dchain:
+                    return True
+                if isinstance(x, (ast.Await, ast.Yield, ast.YieldFrom)):
+                    return True
+            return False
+
+        for nid in nids:
+            ok = False
+            for d in cfg.dominators(nid):
+                dn = cfg.nodes[d]
+                est = False
+                if dn.kind in ("T", "F") and isinstance(dn.ast, ast.Compare) and len(dn.ast.ops) == 1 and chain(dn.ast.comparators[0]) == dchain and dump(dn.ast.left) == key:
+                    op = dn.ast.ops[0]
+                    est = (isinstance(op, ast.In) and dn.kind == "T") or (isinstance(op, ast.NotIn) and dn.kind == "F")
+                elif dn.kind == "stmt" and isinstance(dn.ast, ast.Assign) and any(isinstance(t, ast.Subscript) and chain(t.value) == dchain and dump(t.slice) == key for t in dn.ast.targets):
+                    est = True
+                elif dn.kind == "stmt" and isinstance(dn.ast, ast.Expr) and isinstance(dn.ast.value, ast.Call) and isinstance(dn.ast.value.func, ast.Attribute) and dn.ast.value.func.attr == "setdefault" and chain(dn.ast.value.func.value) == dchain and dn.ast.value.args and dump(dn.ast.value.args[0]) == key:
+                    est = True
+                if not est or d == nid:
+                    continue
+                # nothing on any path from d to nid may disturb the fact
+                back = set()
+                todo = [nid]
+                while todo:
+                    x = todo.pop()
+                    for pr, _lab in cfg.pred[x]:
+                        if pr not in back:
+                            back.add(pr)
+                            todo.append(pr)
+                between = cfg.reach({d}) & back
+                if not any(disturbs(cfg.nodes[b]) for b in between if b not in (d, nid)):
+                    ok = True
+                    break
+            if not ok:
+                return False
+        self.lemmas_used.append("KEY-PRESENT %s in %s: dominated by a membership test / insertion of the same key" % (stmt_text(n, 50), fi.short))
+        return True
 
     def _is_dict_attr(self, sc, attr):
         for k in self.prog.mro(sc.qn):
